@@ -8,7 +8,7 @@ import itertools
 import random
 from concurrent.futures import Future
 
-from props.common import run, fingerprint, sched_kwargs, schedule_modes, hit, core, wrapfut
+from props.common import run, fingerprint, sched_kwargs, schedule_modes, hit, core, wrapfut, protocol_verdicts
 from world.sim import SimFuture, SimPool, SimSync, EXC, vname, outcome, oname
 import leanval
 
@@ -39,7 +39,178 @@ INPUTS = ["ok5", "err50", "cancelled"]
 FORMS = ["f", "exec_sync", "exec_pool"]
 
 
+def gen_chain(rng, i):
+    """chains of 2-4 map / flat_map stages built by one thread WHILE the input is being completed by another one (the
+    composition law `map g then h == map (h after g)` and identity, under every placement of the completion relative to the
+    chaining thread's add_done_callback)"""
+    n = rng.randint(2, 4)
+    stages = []
+    k = 100
+    for j in range(n):
+        flat = rng.random() < 0.4
+        k += 10
+        if flat:
+            fn = rng.choice(["none", "futok%d" % k, "futok%d" % k, "futerr%d" % (k + 1), "raise%d" % (k + 2)])
+            ef = rng.choice(["none", "none", "futok%d" % (k + 3), "raise%d" % (k + 4), "same"])
+        else:
+            fn = rng.choice(["none", "ret%d" % k, "ret%d" % k, "ret%d" % k, "raise%d" % (k + 2)])
+            ef = rng.choice(["none", "none", "ret%d" % (k + 3), "raise%d" % (k + 4), "same"])
+        stages.append([1 if flat else 0, fn, ef])
+    d = dict(family="chain", stages=stages, inp=rng.choice(["ok5", "ok5", "ok5", "err50", "cancelled"]),
+             timing=rng.choice(["during", "during", "during", "before", "after"]), idx=i, seed=rng.randrange(1 << 30))
+    d.update(schedule_modes(rng))
+    return d
+
+
+def chain_body(desc, ctx):
+    from more_executors.futures import f_map, f_flat_map
+
+    def body(s, w):
+        ctx.vals, ctx.excs = {}, {}
+        ctx.calls = [([], []) for _ in desc["stages"]]
+
+        def val(n):
+            return ctx.vals.setdefault(n, Obj(n))
+
+        def exc(n):
+            return ctx.excs.setdefault(n, EXC["E0"]("x%d" % n))
+
+        def mk(beh, calls):
+            if beh == "none":
+                return None
+
+            def f(arg):
+                s.yield_point("ucall")
+                calls.append(arg)
+                if beh.startswith("ret"):
+                    return val(int(beh[3:]))
+                if beh.startswith("raise"):
+                    raise exc(int(beh[5:]))
+                if beh == "same":
+                    raise arg
+                fu = SimFuture()
+                fu.set_running_or_notify_cancel()
+                if beh.startswith("futok"):
+                    fu.set_result(val(int(beh[5:])))
+                else:
+                    fu.set_exception(exc(int(beh[6:])))
+                return fu
+            return f
+
+        src = SimFuture()
+
+        def complete_input():
+            s.yield_point("complete")
+            if desc["inp"] == "ok5":
+                if src.set_running_or_notify_cancel():
+                    src.set_result(val(5))
+            elif desc["inp"] == "err50":
+                if src.set_running_or_notify_cancel():
+                    src.set_exception(exc(50))
+            else:
+                if Future.cancel(src):
+                    src.set_running_or_notify_cancel()
+
+        ct = None
+        if desc["timing"] == "before":
+            complete_input()
+        elif desc["timing"] == "during":
+            ct = s.spawn(complete_input, name="finisher")
+        out = src
+        for j, (flat, fn, ef) in enumerate(desc["stages"]):
+            s.yield_point("api")
+            out = (f_flat_map if flat else f_map)(out, mk(fn, ctx.calls[j][0]), mk(ef, ctx.calls[j][1]))
+        ctx.out = out
+        if desc["timing"] == "after":
+            ct = s.spawn(complete_input, name="finisher")
+        if ct is not None and ct.state != "done":
+            s.block(lambda: ct.state == "done", None, ("cjoin", ct.tid))
+        if not out.done():
+            s.block(lambda: out.done(), s.now + 1000.0, ("waitout",))
+        ctx.final = outcome(out)
+    return body
+
+
+def stage_spec(flat, fn, ef, inp):
+    """one map / flat_map stage read off the property: (outcome, fn calls, error_fn calls) for an input ok<n> / err<n> / cancelled"""
+    def lift(beh, arg):
+        if beh.startswith("raise"):
+            return "err" + beh[5:]
+        if beh == "same":
+            return "err%d" % arg
+        if beh.startswith("ret"):
+            return "typeError" if flat else "ok" + beh[3:]
+        inner = {"futcancelled": "cancelled"}.get(beh) or ("ok" + beh[5:] if beh.startswith("futok") else "err" + beh[6:])
+        return inner if flat else "okFut(%s)" % inner
+    if inp == "cancelled":
+        return "cancelled", [], []
+    if inp.startswith("ok"):
+        v = int(inp[2:])
+        return (inp, [], []) if fn == "none" else (lift(fn, None), [v], [])
+    e = int(inp[3:])
+    return (inp, [], []) if ef == "none" else (lift(ef, e), [], [e])
+
+
+def chain_spec(desc):
+    """the property read stage by stage, independently of the library: (final outcome, per-stage calls)"""
+    cur = desc["inp"]
+    calls = []
+    for (flat, fn, ef) in desc["stages"]:
+        cur, fc, ec = stage_spec(flat, fn, ef, cur)
+        calls.append("fn=[%s] err=[%s]" % (", ".join(map(str, fc)), ", ".join(map(str, ec))))
+    return cur, calls
+
+
+def run_chain(desc):
+    wrapfut.install()
+    ctx = Ctx()
+    s, w = run(chain_body(desc, ctx), **sched_kwargs(desc))
+    hits, verdicts = [], []
+    if s.end_reason != "done":
+        hits.append(hit("C13/stuck:%s" % s.end_reason, "chain scenario ended with %s; parked %r" % (s.end_reason, s.parked())))
+    for e in s.log:
+        if e[1] == "tdied":
+            hits.append(hit("C13/thread-died:%s" % e[2], "thread %d died with %s at %s" % (e[0], e[2], e[3])))
+    got = None
+    if hasattr(ctx, "final"):
+        inv_v = {id(o): n for n, o in ctx.vals.items()}
+        inv_e = {id(o): n for n, o in ctx.excs.items()}
+        fin = ctx.final
+        if fin[0] == "ok":
+            got_out = "ok%d" % inv_v.get(id(fin[1]), -1)
+        elif fin[0] == "err":
+            got_out = "typeError" if isinstance(fin[1], TypeError) else "err%d" % inv_e.get(id(fin[1]), -1)
+        else:
+            got_out = fin[0]
+        got_calls = ["fn=[%s] err=[%s]" % (", ".join(str(inv_v.get(id(a), -1)) for a in fc), ", ".join(str(inv_e.get(id(a), -1)) for a in ec))
+                     for (fc, ec) in ctx.calls]
+        got = (got_out, got_calls)
+        want = chain_spec(desc)
+        if got != want:
+            hits.append(hit("C13/law-violated:chain", "stages=%r input=%s timing=%s: observed %r, composition of the stage laws requires %r"
+                            % (desc["stages"], desc["inp"], desc["timing"], got, want)))
+        # the same fold through the Lean model, stage by stage
+        cur = desc["inp"]
+        lean_calls = []
+        for (flat, fn, ef) in desc["stages"]:
+            out = leanval.validate_blocks([["S oracle", "k7.resolve %d %s %s %s" % (flat, fn, ef, cur), "."]])[0][len("ORACLE "):]
+            cur = out.split(" ")[0]
+            lean_calls.append(out.split(" ", 1)[1])
+        verdicts.append("OK 1 1" if (cur, lean_calls) == got else "DIVERGE 1 [chain %r] real=%r lean=%r" % (desc["stages"], got, (cur, lean_calls)))
+    verdicts += protocol_verdicts(s)
+    return {"hits": hits, "blocks": [], "verdicts": verdicts, "stats": {"yields": s.nyields, "family_chain": 1, "chain_%s" % desc["timing"]: 1},
+            "schedule": list(s.chooser.record), "fingerprint": fingerprint(desc, s) if got is not None else None}
+
+
 def gen_scenarios(seed, tier):
+    rng0 = random.Random(seed * 7919 + 131)
+    for d in _gen_single(seed, tier):
+        yield d
+        if d["idx"] % 2 == 0:
+            yield gen_chain(rng0, 100000 + d["idx"])
+
+
+def _gen_single(seed, tier):
     rng = random.Random(seed * 3571 + 13)
     combos = list(itertools.product([0, 1], FN_BEH, EF_BEH, INPUTS, FORMS, ["before", "later"], ["now", "later"]))
     rng.shuffle(combos)
@@ -249,6 +420,8 @@ def py_spec(desc):
 
 
 def run_one(desc):
+    if desc.get("family") == "chain":
+        return run_chain(desc)
     wrapfut.install()
     ctx = Ctx()
     s, w = run(body_for(desc, ctx), **sched_kwargs(desc))
@@ -273,6 +446,7 @@ def run_one(desc):
             out = leanval.validate_blocks([["S oracle", line, "."]])[0]
             lean = out[len("ORACLE "):]
             verdicts.append("OK 1 1" if lean == got else "DIVERGE 1 [%s] real=%s lean=%s" % (line, got, lean))
+    verdicts += protocol_verdicts(s)
     r = {"hits": hits, "blocks": [], "verdicts": verdicts, "stats": {"yields": s.nyields, "form_" + desc["form"]: 1},
          "schedule": list(s.chooser.record), "fingerprint": fingerprint(desc, s) if got is not None else None}
     if desc.get("idx") == 0:
